@@ -103,6 +103,9 @@ class CompiledLogicNet(torch.nn.Module):
         # Find GroupSum layer for num_classes
         for layer in self.model:
             if isinstance(layer, GroupSum):
+                if bool(torch.as_tensor(layer.beta).ne(0).any()):
+                    # the library returns the integer per-class counts; an offset (possibly per class) cannot be expressed
+                    raise ValueError("Cannot compile a GroupSum with a non-zero offset beta.")
                 self.num_classes = layer.k
                 break
 
